@@ -34,12 +34,16 @@ type params struct {
 	Writers  int  // >1: ops are dealt round-robin to writer threads
 	FailCode bool // broker may answer chunks with a failure code (choice)
 	P        int  // schedule deviation budget
+	AckBurst  int  // this many one-point chunks are written; the broker acknowledges them singly and back to back only when the client is idle (the per-stream ack queue of the wire connection holds 1024)
 	CT0       bool // the stream is opened with WithUpstreamCloseTimeout(0): Close does not wait for acknowledgements, it still cuts and sends what is buffered
 	Prior     bool // another upstream with a 50 ms close timeout and a 300 ms ack timeout was opened and closed on the connection before
 	CloseRace bool // Close is called while the writer threads are still writing
 }
 
 func (p params) name() string {
+	if p.AckBurst > 0 {
+		return fmt.Sprintf("%s/q%d/ackburst%d/P%d", p.Policy, p.QoS, p.AckBurst, p.P)
+	}
 	if p.CT0 {
 		return fmt.Sprintf("%s/q%d/u%v/pre%v/%s/w%d/fc%v/P%d/close-timeout-0", p.Policy, p.QoS, p.Unrel, p.Predecl, strings.Join(p.Ops, ","), p.Writers, p.FailCode, p.P)
 	}
@@ -147,6 +151,11 @@ func scenarios(tier string) []vlib.Scenario {
 	for _, pol := range []string{"none", "immediate"} {
 		add(params{Policy: pol, QoS: message.QoSReliable, Ops: []string{"wA1", "wB1", "F", "wA2"}, Writers: 2})
 	}
+	// more acknowledgements outstanding than the per-stream ack queue holds, delivered in one burst
+	if propID != "C20" {
+		add(params{Policy: "immediate", QoS: message.QoSReliable, Writers: 1, AckBurst: 1040})
+		add(params{Policy: "immediate", QoS: message.QoSReliable, Writers: 1, AckBurst: 1040, P: 1})
+	}
 	// close timeout 0
 	for _, pol := range []string{"none", "interval"} {
 		add(params{Policy: pol, QoS: message.QoSReliable, Ops: []string{"wA1", "wB1"}, Writers: 1, CT0: true})
@@ -187,11 +196,20 @@ func config(sc vlib.Scenario, tier string) vsched.Config {
 	p := sc.P.(params)
 	cfg := vsched.Config{Preempt: 1, Switch: 1, SelCase: 1, Stall: 1, Timer: -1, Horizon: 40 * time.Second, MaxSteps: 400000}
 	cfg.Budget[vsched.BudP] = p.P
+	if p.AckBurst > 0 {
+		// the only deviation is one stall of the stream's ack reader while the first acks of the burst arrive
+		cfg.Preempt, cfg.Switch, cfg.SelCase, cfg.NoScopeCache = -1, -1, -1, true
+		cfg.Scope = func(site string) bool { return burstWindow && strings.Contains(site, "iscp.(*Upstream).readAckLoop") }
+		return cfg
+	}
 	cfg.Scope = func(site string) bool {
 		return strings.Contains(site, "iscp.(*Upstream)") || strings.Contains(site, "iscp.(*eventDispatcher)") || strings.Contains(site, "(DataPointGroups)")
 	}
 	return cfg
 }
+
+// burstWindow: the first acks of an ack burst are being sent (scope of the stall deviation of the ack-burst scenarios)
+var burstWindow bool
 
 type wpoint struct {
 	id      message.DataID
@@ -246,6 +264,22 @@ func (w *world) script() *sim.Script {
 			return true
 		}
 		return vsched.Choose("alias-at-open", 2) == 0
+	}
+	if w.p.AckBurst > 0 {
+		s.AssignDataAlias = func(u *sim.UpStream) bool { return true }
+		s.AckChunk = func(c *sim.BConn, u *sim.UpStream, ch *sim.ChunkRec) sim.AckMode { return sim.AckHold }
+		s.ReleaseHeld = func(b *sim.Broker, c *sim.BConn, u *sim.UpStream) {
+			if len(u.Held) < w.p.AckBurst {
+				return // not yet: the burst comes when everything has been received
+			}
+			held := u.Held
+			u.Held = nil
+			burstWindow = true // until the first results have been reported to the hook
+			for _, r := range held {
+				b.SendAck(c, u, []*message.UpstreamChunkResult{r}, nil)
+			}
+		}
+		return s
 	}
 	s.AckChunk = func(c *sim.BConn, u *sim.UpStream, ch *sim.ChunkRec) sim.AckMode {
 		switch vsched.Choose(fmt.Sprintf("ack-seq%d", ch.Seq), 3) {
@@ -439,6 +473,9 @@ func (w *world) main() {
 		})),
 		iscp.WithUpstreamReceiveAckHooker(iscp.ReceiveAckHookerFunc(func(id uuid.UUID, r iscp.UpstreamChunkResult) {
 			w.ackHook = append(w.ackHook, r)
+			if len(w.ackHook) >= 2 {
+				burstWindow = false
+			}
 		})),
 		iscp.WithUpstreamClosedEventHandler(iscp.UpstreamClosedEventHandlerFunc(func(ev *iscp.UpstreamClosedEvent) { w.closedEv++ })),
 	}
@@ -461,7 +498,18 @@ func (w *world) main() {
 		return
 	}
 	w.phase = "ops"
-	if w.p.Writers <= 1 {
+	if w.p.AckBurst > 0 {
+		for i := 0; i < w.p.AckBurst; i++ {
+			rec := writeRec{op: "burst"}
+			e := time.Duration(i+1) * time.Microsecond
+			rec.points = append(rec.points, wpoint{idA, e, "x"})
+			ida := idA
+			idx := len(w.writes)
+			w.writes = append(w.writes, rec)
+			w.writes[idx].err = up.WriteDataPoints(ctx, &ida, &message.DataPoint{ElapsedTime: e, Payload: []byte("x")})
+			w.writes[idx].done = true
+		}
+	} else if w.p.Writers <= 1 {
 		for _, op := range w.p.Ops {
 			w.doOp(ctx, up, op)
 		}
@@ -508,6 +556,7 @@ func (w *world) main() {
 
 func run(sc vlib.Scenario, cfg vsched.Config) (*vsched.Result, vlib.Verdict) {
 	w := &world{p: sc.P.(params)}
+	burstWindow = false
 	res := vsched.Run(cfg, w.main)
 	var v vlib.Verdict
 	if res.Outcome == vsched.Panicked {
@@ -701,7 +750,17 @@ func (w *world) oracleC01(v *vlib.Verdict) {
 	}
 	if len(missing) > 0 && !w.p.CT0 { // (with a close timeout of 0 Close does not wait for acknowledgements by configuration)
 		sort.Slice(missing, func(i, j int) bool { return missing[i] < missing[j] })
-		v.Fail("C01.ackhook", fmt.Sprintf("missing-at-close/reported-later=%v/dev=%v", late, w.dev), "Close returned nil although the results of chunks %v had not been reported to the ack hook (broker acks every chunk; results sent by then: %v)", missing, w.acksSentAtClose)
+		sent := fmt.Sprint(w.acksSentAtClose)
+		if len(w.acksSentAtClose) > 40 {
+			sent = fmt.Sprintf("%v ... (%d results)", w.acksSentAtClose[:40], len(w.acksSentAtClose))
+		}
+		sig := fmt.Sprintf("missing-at-close/reported-later=%v/dev=%v", late, w.dev)
+		if w.p.AckBurst > 1024 && !late && missing[0] > 1024 {
+			// the per-stream ack queue of the wire connection holds 1024 messages and the dispatcher does not wait
+			// for room: what is lost are results that arrived while more than 1024 were queued
+			sig = "ack-burst/results-beyond-1024-queued-dropped"
+		}
+		v.Fail("C01.ackhook", sig, "Close returned nil although the results of chunks %v had not been reported to the ack hook (broker acks every chunk; results sent by then: %s)", missing, sent)
 	}
 	sentCount := map[string]int{}
 	for _, r := range u.AcksSent {
